@@ -1,7 +1,7 @@
 (* Statements of Properties_C09.v that combine several lemmas: proved here so that the property file only
    contains `exact`. *)
 From Coq Require Import ZArith List Bool Arith Lia.
-From CV Require Import C09.ParseModel C09.ParseProofs C09.NumProofs C09.LookupProofs C09.FlatProofs C09.ValueProofs C09.OrigProofs.
+From CV Require Import C09.ParseModel C09.ParseProofs C09.NumProofs C09.LookupProofs C09.FlatProofs C09.ValueProofs C09.OrigProofs C09.NestedProofs.
 Import ListNotations.
 Local Open Scope Z_scope.
 
@@ -127,3 +127,30 @@ Lemma single_line_value_layout_thm :
   (forall l c1 c2, trimmed_to l c1 -> trimmed_to l c2 -> c1 = c2).
 Proof. split; [exact extract_value_single_line|exact trimmed_unique]. Qed.
 
+
+(* whole-configuration independence of the raw-text layout: both clients see the configuration only through
+   strip_comments, so every rewrite that strip_comments does not see leaves the whole result unchanged *)
+Definition same_result (raw1 raw2 : list Z) : Prop :=
+  (forall strict schema, parse_config strict schema raw1 = parse_config strict schema raw2) /\
+  (forall strict items, nparse_config strict items raw1 = nparse_config strict items raw2).
+
+Lemma same_result_of_strip : forall raw1 raw2, strip_comments raw1 = strip_comments raw2 -> same_result raw1 raw2.
+Proof.
+  intros raw1 raw2 H. split; intros; [unfold parse_config|unfold nparse_config]; rewrite H; reflexivity.
+Qed.
+
+Lemma whole_configuration_raw_layout :
+  (forall p l q, ends_lf p -> no_lf l -> not_ending_cr l ->
+     same_result (p ++ l ++ CR :: LF :: q) (p ++ l ++ LF :: q)) /\
+  (forall p l c q, ends_lf p -> no_lf l -> no_lf c -> not_ending_cr l ->
+     same_result (p ++ l ++ HASH :: c ++ LF :: q) (p ++ l ++ LF :: q)) /\
+  (forall p w q, ends_lf p -> no_lf w -> all_ws (clean_line w) ->
+     same_result (p ++ w ++ LF :: q) (p ++ q)) /\
+  (forall p l, ends_lf p -> no_lf l -> l <> [] -> same_result (p ++ l) (p ++ l ++ [LF])).
+Proof.
+  split; [|split; [|split]]; intros; apply same_result_of_strip.
+  - apply strip_comments_crlf; assumption.
+  - apply strip_comments_trailing_comment; assumption.
+  - apply strip_comments_blank_line; assumption.
+  - apply strip_comments_final_newline; assumption.
+Qed.
